@@ -125,7 +125,8 @@ class C06(core.Check):
         'shadow:local-name-in-2-regions', 'shadow:local-name-in-2-files', 'shadow:file-label-in-2-files',
         'illegal:cross-region-ref', 'illegal:cross-file-ref', 'illegal:ref-after-org', 'illegal:ref-after-memzone',
         'illegal:undefined', 'illegal:dup-global', 'illegal:dup-file', 'illegal:dup-local', 'illegal:orphan-local',
-        'illegal:register-name', 'illegal:keyword-name', 'illegal:dup-global-across-files', 'illegal:dup-same-value', 'const-between-def-and-use',
+        'illegal:register-name', 'illegal:keyword-name', 'illegal:dup-global-across-files', 'illegal:dup-same-value',
+        'dead-branch-inside-region', 'dead-branch-between-local-def-and-use', 'const-between-def-and-use',
         'files:1', 'files:2', 'files:3+', 'expect:ACCEPT', 'expect:REJECT', 'ref:forward', 'ref:backward']}
 
     def build(self, rng, illegal):
@@ -171,7 +172,18 @@ class C06(core.Check):
                             L.append({'k': 'label', 'name': ln})
                             mark(L)
                             local_use.setdefault(ln, []).append((f, r))
-                    elif x < 0.6:
+                    elif x < 0.58 and (used_here or rng.random() < 0.3):
+                        # lines of an unselected conditional branch define nothing and close no region
+                        body = rng.choice([['dead_g%d:' % marker[0]], ['_dead_f%d:' % marker[0]], ['.org $7F00'], ['.memzone ZQ'],
+                                           ['dead_h%d:' % marker[0], '.byte 9'], ['_dead_e%d:' % marker[0], '.2byte _dead_e%d' % marker[0]],
+                                           ['dead_g%d:' % marker[0], '.byte 1', (used_here[0] + ':') if used_here else '.byte 2'],
+                                           ['DEAD_K%d = 5' % marker[0]], ['#include "nowhere.asm"']])
+                        opener = rng.choice(['#if 0', '#ifdef NEVER_DEFINED_SYM', '#if 1\n#else', '#ifndef NEVER_DEFINED_SYM\n#else'])
+                        L.append({'k': 'dead', 'text': '\n'.join([opener] + body + ['#endif'])})
+                        tags.add('dead-branch-inside-region')
+                        if used_here:
+                            tags.add('dead-branch-between-local-def-and-use')
+                    elif x < 0.68:
                         cn = rng.choice(['K_' + str(marker[0]), '_kf' + str(marker[0])])
                         L.append({'k': 'const', 'name': cn, 'val': rng.choice([0, 0, 1, 0x4000 + marker[0]])})
                         if used_here:
@@ -280,6 +292,8 @@ class C06(core.Check):
                     out.append(f".memzone {it['name']}")
                 elif k == 'include':
                     out.append(f'#include "{it["target"]}"')
+                elif k == 'dead':
+                    out.append(it['text'])
             fl[f] = '\n'.join(out) + '\n'
         isa = gen_prog.layout_isa(16, endian='big', zones=zones)
         fn, text = isamod.render_isa(isa, 'json')
